@@ -100,3 +100,7 @@ package schemas
 //@   props C10
 //@   arg-from Dir 0 param:parentFileName
 //@   arg-from Join 0 call:Dir
+//@ func QualifiedFileName@callsite
+//@   trusted file system: the resolved path is an unknown string determined by the arguments, or there is an error
+//@   shape results = (pure; nil) | (""; error)
+//@   assigns nothing
